@@ -64,4 +64,103 @@ def accGuards : Prog → List (Nat × List Nat)
   | ⟨g, .acc _ _ i _⟩ :: rest => (i, g) :: accGuards rest
   | _ :: rest => accGuards rest
 
+/-! ### accumulator threading (C16: "no term is dropped")
+
+  `checkLinear` + `checkCoverage` do not exclude that an accumulate statement adds to a STALE
+  total (its contribution is then lost).  `checkChain` checks that the running total is threaded
+  linearly through all accumulate statements, following the two shapes the translator emits:
+
+    unconditional   `acc d cur i e`                                   (`cur := d`)
+    conditional     `set d (var cur)`                                  -- else-value: copy of the total
+                    `[g] acc d1 cur i e; [g] acc d2 d1 …; [g] acc d dn …`   (`cur := d`)
+-/
+
+inductive ChainState where
+  /-- no running total yet -/
+  | init
+  /-- running total in slot `cur` -/
+  | top (cur : Nat)
+  /-- `d` has just been made a copy of the running total `cur` (else-value of a conditional) -/
+  | els (cur d : Nat)
+  /-- inside the block guarded by `g`: else-value in `d`, the block's running total in `k` -/
+  | blk (g d k : Nat)
+  deriving Repr, DecidableEq, Inhabited
+
+/-- one statement (`gs` = its guards).  Assignments to non-accumulator slots are transparent, except
+    that a block's guard must not be reassigned inside the block. -/
+def chainStep (A : Nat) (σ : ChainState) (gs : List Nat) : Stmt → Option ChainState
+  | .set x e =>
+    if A.testBit x then
+      match σ, gs, e with
+      | .init, [], .const n => if n = 0 then some (.top x) else none
+      | .top cur, [], .var s => if s = cur then some (.els cur x) else none
+      | .blk _ d k, [], .var s => if k = d ∧ s = d then some (.els d x) else none
+      | _, _, _ => none
+    else
+      match σ with
+      | .blk g _ _ => if x = g then none else some σ
+      | _ => some σ
+  | .acc dst src _ _ =>
+    match σ, gs with
+    | .top cur, [] => if src = cur then some (.top dst) else none
+    | .els cur d, [g] => if src = cur then some (.blk g d dst) else none
+    | .blk g d k, [g'] => if g' = g ∧ src = k then some (.blk g d dst) else none
+    | .blk _ d k, [] => if k = d ∧ src = d then some (.top dst) else none
+    | _, _ => none
+
+/-- streaming form -/
+def chainFrom (A : Nat) : Prog → ChainState → Option ChainState
+  | [], σ => some σ
+  | g :: rest, σ =>
+    match chainStep A σ g.guards g.stmt with
+    | some σ' => chainFrom A rest σ'
+    | none => none
+
+def chainEnd (res : Nat) : ChainState → Bool
+  | .top cur => cur == res
+  | .blk _ d k => k == d && d == res
+  | _ => false
+
+/-- the accumulator is threaded linearly from `set _ (const 0)` to the result slot -/
+def checkChain (p : Prog) (A : Nat) (res : Nat) : Bool :=
+  match chainFrom A p .init with
+  | some σ => chainEnd res σ
+  | none => false
+
+/-! ### guards are component switches (C16, dynamic layout)
+
+  `flagsFrom` checks that every guard slot used by a statement has been loaded BEFORE, by an
+  unconditional `g := felt!(dynamic_params.<field j>)`, and that no loaded flag slot is ever
+  written again; it returns the list of `(slot, j)`.  -/
+
+/-- the slot a statement writes -/
+def Stmt.dst : Stmt → Nat
+  | .set x _ => x
+  | .acc d _ _ _ => d
+
+structure FlagState where
+  /-- bitmask of the slots in `loads` -/
+  mask : Nat
+  /-- `(slot, dynamic-parameter index)` of the unconditional parameter loads so far, latest first -/
+  loads : List (Nat × Nat)
+  deriving Repr, DecidableEq, Inhabited
+
+def flagStep (σ : FlagState) (gs : List Nat) (s : Stmt) : Option FlagState :=
+  if gs.all (fun g => σ.mask.testBit g) && !σ.mask.testBit s.dst then
+    match gs, s with
+    | [], .set x (.dp j) => some ⟨σ.mask ||| (1 <<< x), (x, j) :: σ.loads⟩
+    | _, _ => some σ
+  else none
+
+def flagsFrom : Prog → FlagState → Option FlagState
+  | [], σ => some σ
+  | g :: rest, σ =>
+    match flagStep σ g.guards g.stmt with
+    | some σ' => flagsFrom rest σ'
+    | none => none
+
+/-- `(slot, dynamic-parameter index)` of every parameter load, if the flag discipline holds -/
+def flagMap (p : Prog) : Option (List (Nat × Nat)) :=
+  (flagsFrom p ⟨0, []⟩).map (·.loads)
+
 end Swiftness.Ast
